@@ -110,6 +110,11 @@ def _random_case(r, n=None):
          "sf": [_feat(r, n, True) for _ in range(nsf)], "cf": [_feat(r, n, True) for _ in range(ncf)],
          "sf_container": _container(r, nsf, n), "cf_container": _container(r, ncf, n) if ncf else None,
          "sf_names": [f"s{chr(65 + j)}" for j in range(nsf)], "cf_names": [f"c{chr(65 + j)}" for j in range(ncf)]}
+    if r.chance(1, 3):
+        # feature names (DataFrame columns / dict keys / Series names) NOT in sorted order: the order of the
+        # features is the order given, never an alphabetical one
+        c["sf_names"] = c["sf_names"][::-1]
+        c["cf_names"] = c["cf_names"][::-1]
     c["sp_container"] = r.choice(["list", "list", "ndarray", "series_perm", "series_offset", "series_str",
                                   "frame1_perm"])
     c["callable"] = r.chance(1, 3)
